@@ -29,6 +29,8 @@ def jobs(tier):
                           unwind=(None if opn == 3 else 2), unwindset=[f"{l}:{big}" for l in loops],
                           bounded=f"capacity {cap}, 3 distinct keys; arbitrary table state, hash values and history",
                           replay=None, sample=f"{nm} from an arbitrary well-formed state of a capacity-{cap} table"))
+    # tried: put through rehash with the slot kinds concretised path by path (-DCONCRETE_STATE, cbmc --paths lifo), capacity 4:
+    # no result in 900 s (625 table shapes x symbolic hash values through two tables).  rehash stays NOT covered.
     js.append(Job(name="hm-match", src="match.c", group="C17 key comparison", mode="plain", cut=["error", "error_tok", "error_at"], unwind=26, timeout=300, replay=None,
                   bounded="keys of at most 20 bytes", sample="match() on arbitrary keys up to 20 bytes"))
     return js
